@@ -49,8 +49,11 @@ structure World where
     5 /tmp/m (missing), 6 /tmp/x/n (in a missing directory), 7 /tmp/d (directory),
     8 /tmp/a/e (below a regular file), 9 /tmp/p (regular; what pre-opened descriptors refer to);
     10 /tmp/s (script for `.`); 11 /tmp/t (terminal device);
-    ≥ 12: anonymous here-document files -/
+    12 /tmp/q/ (trailing slash, never exists); ≥ 13: anonymous here-document files -/
 def pathEnotdir : Nat := 8
+/-- 12: `/tmp/q/` — a pathname with a trailing slash whose last component does not exist (nothing ever
+    creates /tmp/q): `resolve_file` answers EISDIR when asked to create it, ENOENT otherwise -/
+def pathSlash : Nat := 12
 
 def fileAt (w : World) (i : Nat) : File := (w.files[i]?).getD ⟨false, .reg, [], false⟩
 def ofdAt (w : World) (i : Nat) : Ofd := (w.ofds[i]?).getD ⟨0, false, false, false, 0⟩
@@ -61,6 +64,8 @@ def setOfd (w : World) (i : Nat) (d : Ofd) : World := { w with ofds := w.ofds.se
 /-- `VirtualSystem::resolve_file` followed by `OpenFileDescription::new` -/
 def World.resolve (w : World) (req : OpenReq) : World × Except Errno Nat :=
   if req.path = pathEnotdir then (w, .error .ENOTDIR) else
+  -- "A pathname with a trailing slash names a directory, which cannot be created by opening it"
+  if req.path = pathSlash then (w, .error (if req.args.create then .EISDIR else .ENOENT)) else
   let f := fileAt w req.path
   let rd := req.args.acc != .wo
   let wr := req.args.acc != .ro
@@ -142,7 +147,9 @@ def initialFiles : List File :=
     -- 10: /tmp/s, the script the `.` built-in reads (shell text, reported like a tainted file)
     ⟨true, .reg, [], true⟩,
     -- 11: /tmp/t, a terminal device file (existing, not regular)
-    ⟨true, .tty, [7], false⟩ ]
+    ⟨true, .tty, [7], false⟩,
+    -- 12: /tmp/q/ (see `pathSlash`): never present
+    ⟨false, .reg, [], false⟩ ]
 
 /-- `VirtualSystem::new`: descriptors 0, 1, 2 on /dev/stdin, /dev/stdout, /dev/stderr, read-write and
     appending -/
